@@ -10,9 +10,11 @@ CFG = {'assumptions': ['tokio timer, mpsc and oneshot semantics; xxh64 collision
  'level_note': 'trusted: Lean kernel, harness, recording callbacks; Rust modelled not verified; runtime '
                'scheduling outside the model',
  'level_text': 'Lean theorems over the session model: acceptance predicates of non-READ and READ responses '
-               'as iff, confirm rule for reads (step level) and unsolicited responses, duplicate detection; '
-               'D8 and D23 stated as counterexamples; tie: correspondence of the real task vs model + trace '
-               'monitors',
+               'as iff, confirm_exactly_when at step level for every session mode (READ, non-READ and '
+               'unsolicited fragments; D8 repaired), unsolicited decision as iff incl. unparsable objects '
+               'ignored / confirmed contents delivered (D23 repaired), duplicate detection; tie: '
+               'correspondence of the real task vs model + trace monitors; regression corpus '
+               'harness/corpus/C15/master_D8.ops, master_D23.ops',
  'module': 'Dnp3.Props.C15',
  'monitors': ['success_needs_response',
               'stale_or_foreign_ignored',
